@@ -2,7 +2,6 @@ package main
 
 import "golang.org/x/tools/go/packages"
 
-func genAccessors(msg, frame *packages.Package)        {}
 func genConversions(p *packages.Package)               {}
 func genVint(p *packages.Package)                      {}
 func genCrcFacts(crc, seg *packages.Package)           {}
